@@ -93,3 +93,18 @@ def chunks(seq, n):
     seq = list(seq)
     k = max(1, (len(seq) + n - 1) // n)
     return [seq[i:i + k] for i in range(0, len(seq), k)]
+
+
+def calendar_edge_instants():
+    """UTC instants (us) on calendar edges of every kind of year: the last/first days of February, year ends and a
+    month end, for common years, ordinary leap years (divisible by 16 or not), and century years of both kinds.
+    Arithmetic that goes through a month-length or leap-year table is only exercised on such days."""
+    from .ref import calref
+    out = []
+    for y in (1896, 1900, 1904, 1999, 2000, 2004, 2016, 2023, 2024, 2100, 2400):
+        for (m, d, hh, mi) in ((2, 28, 23, 30), (2, 29, 12, 0), (3, 1, 0, 30), (12, 31, 23, 59), (1, 1, 0, 0), (1, 31, 12, 0),
+                               (2, 28, 20, 0)):
+            if d > calref.days_in_month(y, m):
+                continue
+            out.append(((calref.days_from_civil(y, m, d) * 86400) + hh * 3600 + mi * 60 + 59) * 1_000_000 + 999_999)
+    return out
